@@ -636,6 +636,17 @@ func c02bitAliasCase(c *vf.Ctx, i int) {
 			}
 			b[p] = orig
 		}
+		// a multi-byte rune whose code point's low byte is the replaced character
+		// (what a decoder that ranges over runes and truncates them would conflate)
+		for k := 0; k < 12; k++ {
+			p := r.Intn(len(b))
+			cp := rune(1+r.Intn(0x10ff))<<8 | rune(b[p])
+			if cp >= 0xd800 && cp <= 0xdfff {
+				continue
+			}
+			c.Inc("bit-alias-strings")
+			c02verify(c, "bit-alias", "bit-alias/rune-low-byte", f.name, string(b[:p])+string(cp)+string(b[p+1:]), net)
+		}
 		for k := 0; k < 24; k++ {
 			p := r.Intn(len(b))
 			orig := b[p]
